@@ -124,7 +124,12 @@ func checkC07(c *hx.Checker) {
 					exps, errs := ref.Squeeze(data, nil, false)
 					add("Squeeze", nil, []*ref.T{data, nil}, exps, errs, rt, nil, true, "axes-absent")
 				}
-				for _, ax := range seqs(rangeI64(-r-1, r), 1, maxAxes) {
+				sqAxes := seqs(rangeI64(-r-1, r), 1, maxAxes)
+				if maxAxes < 3 && r <= 3 && vi == 0 && route == "op" {
+					// axes lists of length 3 (a duplicate separated by another axis, ...) on ranks <= 3 also in the quick tier
+					sqAxes = seqs(rangeI64(-r-1, r), 1, 3)
+				}
+				for _, ax := range sqAxes {
 					exp, err := ref.Squeeze(data, ax, true)
 					add("Squeeze", nil, []*ref.T{data, ref.I64Vec(ax...)}, exp, err, rt, init, true, fmt.Sprint(ax))
 				}
